@@ -353,6 +353,9 @@ def established(keepalive=20.0, login=False, password=None, expected_name=None, 
         msgs.append(connect_response(False))
     net.send(*msgs)
     loop.run_idle()
-    assert o.cls() == "ok", o.cls()
+    if o.cls() != "ok":
+        raise common.LibraryMisbehaved("session-not-established", f"a plain session with a conformant device (HelloResponse {api[0]}.{api[1]}, name "
+                                       f"{name!r}, login={login}, keepalive={keepalive}) could not be established: connect() ended as {o.cls()}",
+                                       {"login": login, "keepalive": keepalive, "expected_name": expected_name, "name": name, "outcome": o.cls()})
     conn = client._connection
     return net, client, conn, stops
